@@ -360,6 +360,31 @@ def _short(e):
     return None
 
 
+def _getter_norm(f, e, depth=3):
+    """text of e with single-return property getters of the own class expanded"""
+    from ..inline import _clone
+    if f.cls is None or f.self_name is None:
+        return norm(e)
+
+    class _X(ast.NodeTransformer):
+        def visit_Attribute(self, n):
+            self.generic_visit(n)
+            if isinstance(n.value, ast.Name) and n.value.id == f.self_name and n.attr in f.cls.getters:
+                g = f.cls.getters[n.attr]
+                body = g.body()
+                if len(body) == 1 and isinstance(body[0], ast.Return) and body[0].value is not None and g.self_name:
+                    v = _clone(body[0].value)
+                    for x in ast.walk(v):
+                        if isinstance(x, ast.Name) and x.id == g.self_name:
+                            x.id = f.self_name
+                    return v
+            return n
+    cur = _clone(e)
+    for _ in range(depth):
+        cur = _X().visit(cur)
+    return norm(cur)
+
+
 def check_uninitialised(ctx, rep, rule):
     """Every np.empty / np.empty_like buffer is completely defined before it
     is read: one full store, stores under a mask and its complement, a slice
@@ -426,7 +451,7 @@ def check_uninitialised(ctx, rep, rule):
                                         idx = el.slice.elts[0] if isinstance(el.slice, ast.Tuple) else el.slice
                                         if isinstance(idx, ast.Name) and idx.id == lv and _short(it) == "range" and len(it.args) == 1 and shape is not None:
                                             sh0 = shape.elts[0] if isinstance(shape, ast.Tuple) else shape
-                                            if norm(it.args[0]) == norm(sh0):
+                                            if norm(it.args[0]) == norm(sh0) or _getter_norm(f, it.args[0]) == _getter_norm(f, sh0):
                                                 full = True
                     if full:
                         covered = True
